@@ -181,6 +181,19 @@ CHECKS = {
    note="Trusted: TLC, JSON bridge. The reference is the fresh tokenizer the statement names (run by the driver). Extra fields left loaded by earlier mode changes are not compared.",
    technique="TLA+ spec Tokenizer (NoStaleRead) + TLC enumeration of all short histories, executed on the real tokenizer; I->S trace validation with fresh twins (Trace_Tokenizer)",
    design="4 C10"),
+ "C16": dict(
+   category="model_checking",
+   text="Sentences.tla specifies sentence splitting on characters: terminator groups (full stop/question/exclamation/ellipsis, >= 3 middle dots, a period not between alphanumerics, "
+        ">= 2 line-break tags, each swallowing further periods/full stops), extension over closing brackets/commas/terminators, the vetoes (bracket depth clamped at zero, itemisation header, "
+        "quoting particles, a multi-character dictionary word running over or ending on the terminator within the 30-byte look-back), the window and the iterator, and states the property as four "
+        "predicates over ANY offered sentence list (Partitions, BreaksAfterTerminators, NoBreakInBrackets, EndsAtFirstCandidate). TLC checks them for every text <= 3 (thorough 4) over one "
+        "character per kind x limits {1,2,3,unbounded} x 32 lexicons x checker on/off (390k cases). Every enumerated case up to 2 (3) and thousands of seeded random real-Unicode texts "
+        "(limits 1..50 and 4096, five lexicons incl. the one-character terminator word and words ending 11..14 characters before a terminator) are run through the real SentenceSplitter and the "
+        "recorded ranges + slices validated by TLC against the same predicates.",
+   note="Trusted: TLC, JSON bridge, fancy-regex as a library. The converse is asserted inside the window only; beyond it the code's `rest of the text` is accepted. A genuine defect found earlier "
+        "(terminator listed as a dictionary word suppresses breaks) was repaired.",
+   technique="TLA+ spec Sentences + TLC over all short texts; I->S trace validation of the real splitter on every enumerated case and on random texts (Trace_Sentences)",
+   design="4 C16"),
 }
 
 NOT_YET = "no check registered yet in this revision (work in progress; see DESIGN.md section 8 build order)"
